@@ -10,7 +10,9 @@ RULE = ("every generator of tree/treegen.go (uniform, yule, caterpillar, balance
         "rooted and unrooted, sizes from 0 up to 40 (thorough: 150; balanced depth 0..6, thorough 8; enumerator n 0..7 "
         "unrooted / 0..6 rooted, thorough 8 / 7), random seeds; the handler records the raw rand stream of the seed, the "
         "model (Coq) replays the generator on it; a case is non-trivial when a tree (or a list of trees) was returned and "
-        "compared; distinct = distinct case text")
+        "compared; distinct = distinct case text; round 8: BipartitionTree on every pair of side sizes 0..4, names common to both "
+        "sides / repeated inside one side, random sides of 2..12 names, and EdgeTree on branches of random source trees "
+        "(families bipartition / edgetree, model Model/C16Extra8.v)")
 TRUSTED = ["dump through Neigh()/Edges()/Left()/Right() (treeio.go), tip index through VerifTipIndexNames/TipIndex, bitsets through Edge.Bitset()",
            "the worker's table exptab[p] = gostats.Exp(1.0/0.1) started at stream position p (computed with gostats.Exp itself)"]
 ASSUMPTIONS = ["math/rand (go1.23, v1 API): Intn/Int31n transcribed in Model/Rand.v, Float64 in Model/Rand2.v (cross-checked against "
@@ -18,7 +20,8 @@ ASSUMPTIONS = ["math/rand (go1.23, v1 API): Intn/Int31n transcribed in Model/Ran
                "(the number of values consumed is compared with the model's plan)",
                "gostats.Exp(lambda) = one rand.Float64 draw; its value is opaque to the model (read from the worker's table), only its "
                "sign is judged (oracle: lengths >= 0)"]
-LEVEL_TEXT = ("theorems in coq/Properties/C16.v about Model/TreeGen.v for every choice vector within bounds and every size; "
+LEVEL_TEXT = ("theorems in coq/Properties/C16.v about Model/TreeGen.v for every choice vector within bounds and every size "
+              "(Properties/C16Extra8.v: BipartitionTree / EdgeTree for all name lists, exact success domain; 2n-3 / 2n-2 branches); "
               "correspondence: exact structural equality (neighbour order, names, which Exp draw lands on which branch) with the Go "
               "result, on the recorded random stream; oracle: Spec/GenShape.v on Go's own output")
 LEVEL_NOTE = ("2 tips unrooted (and depth 1 unrooted) crashed, then returned an error with the tree / an unreadable Newick text; "
@@ -116,6 +119,37 @@ def gen(rng, tier):
                     raw.append(rng.randrange(0, top))
         out.append({"sx": sx({"gen": Sym("randlib"), "n": 0, "rooted": False, "rawin": raw, "plan": plan}),
                     "meta": {"gen": "randlib", "n": len(plan), "rooted": False}})
+    # BipartitionTree / EdgeTree (round 8, Model/C16Extra8.v): every pair of side sizes 0..4, common names,
+    # a name repeated inside one side, random sizes; EdgeTree on branches of random source trees
+    def bip(lefts, rights):
+        return {"sx": sx({"gen": Sym("bipartition"), "n": len(lefts) + len(rights), "rooted": False, "seed": 1, "nraw": 0,
+                          "lefts": list(lefts), "rights": list(rights)}),
+                "meta": {"gen": "bipartition", "n": len(lefts) + len(rights), "rooted": False}}
+    for a in range(0, 5):
+        for b in range(0, 5):
+            out.append(bip(["L%d" % i for i in range(a)], ["R%d" % i for i in range(b)]))
+    out.append(bip(["a", "b"], ["b", "c"]))
+    out.append(bip(["a", "b", "c"], ["d", "e", "a"]))
+    out.append(bip(["a", "a"], ["c", "d"]))
+    out.append(bip(["a", "b"], ["c", "d", "c"]))
+    out.append(bip(["a", "a"], ["a", "d"]))
+    out.append(bip(["a"], ["a"]))
+    out.append(bip(["", "x"], ["y", "z"]))
+    for _ in range({"quick": 12, "thorough": 80, "search": 8}[tier]):
+        a, b = rng.randint(2, 12), rng.randint(2, 12)
+        names = ["%s%d" % (rng.choice("zyxabc"), j) for j in range(a + b)]
+        rng.shuffle(names)
+        if rng.random() < 0.2:
+            names[rng.randrange(a + b)] = names[rng.randrange(a + b)]
+        out.append(bip(names[:a], names[a:]))
+    for _ in range({"quick": 8, "thorough": 40, "search": 4}[tier]):
+        nt = rng.randint(3, 12)
+        names = ["%s%d" % (rng.choice("zyxabc"), j) for j in range(nt)]
+        rng.shuffle(names)
+        t = gg.decorate(gg.shape(names, maxdeg=rng.choice([3, 4]), rootdeg=rng.choice([2, 3])), lenmode="all", supmode="none")
+        for k in sorted(set(rng.randrange(nt) for _ in range(3))):
+            out.append({"sx": sx({"gen": Sym("edgetree"), "n": nt, "rooted": False, "seed": 1, "nraw": 0, "tree": T(t), "k": k}),
+                        "meta": {"gen": "edgetree", "n": nt, "rooted": False}})
     # enumerator with given names (and a wrong number of names)
     out.append(case("topologies", 5, False, 1, 0, ["e", "b", "a", "d", "c"]))
     out.append(case("topologies", 4, True, 1, 0, ["z", "y", "x", "w"]))
